@@ -32,6 +32,7 @@ var T0 = time.Date(2030, 1, 1, 0, 0, 0, 0, time.UTC)
 type ident struct {
 	name    string
 	priv    any
+	signer  ssh.Signer // set for key types the agent protocol's add request cannot carry (security keys): put into the underlying agent directly
 	pub     ssh.PublicKey
 	cert    *ssh.Certificate
 	blob    []byte
@@ -53,9 +54,18 @@ func regKey(name string, priv any) *ident {
 	return id
 }
 
+// regSignerKey registers a key that exists only as a signer object (no private key the agent protocol could carry).
+func regSignerKey(name string, sg ssh.Signer) *ident {
+	p := sg.PublicKey()
+	id := &ident{name: name, signer: sg, pub: p, blob: p.Marshal(), keyBlob: p.Marshal()}
+	idents[name] = id
+	identsBy[string(id.blob)] = id
+	return id
+}
+
 func regCert(name string, over *ident, keyID string, va, vb uint64, crit map[string]string) *ident {
 	c := fix.SSHCert(over.pub, keyID, va, vb, crit, "alice")
-	id := &ident{name: name, priv: over.priv, pub: c, cert: c, blob: c.Marshal(), keyBlob: over.blob, va: va, vb: vb}
+	id := &ident{name: name, priv: over.priv, signer: over.signer, pub: c, cert: c, blob: c.Marshal(), keyBlob: over.blob, va: va, vb: vb}
 	_, err := keyid.Unmarshal(keyID)
 	id.ysshca = err == nil
 	idents[name] = id
@@ -135,6 +145,15 @@ func (w *shimWorld) Close() { vnet.Unregister(w.addr) }
 
 func (w *shimWorld) directAdd(name string) {
 	id := idents[name]
+	if id == nil {
+		panic("harness: unknown identity " + name)
+	}
+	if id.signer != nil {
+		if err := w.ua.Ring.AddSigner(id.signer, id.cert, "c-"+name); err != nil {
+			panic(err)
+		}
+		return
+	}
 	k := agent.AddedKey{PrivateKey: id.priv, Certificate: id.cert, Comment: "c-" + name}
 	if err := w.ua.Ring.Add(k); err != nil {
 		panic(err)
